@@ -6,6 +6,7 @@ import (
 	"context"
 	"fmt"
 	"os"
+	"strings"
 	"testing"
 	"time"
 
@@ -149,6 +150,60 @@ func TestCheck(t *testing.T) {
 			return diff.StripKey(j), nil
 		case <-time.After(60 * time.Second):
 			return nil, fmt.Errorf("gateway request did not return within 60s")
+		}
+	}
+	// long chains of named fragments whose spreads all carry a directive that
+	// keeps them: dropping the directives must change nothing, at any length
+	// (limits that count a directive-carrying spread differently from a plain one)
+	for ci, length := range []int{3, 40, 300, 600, 900} {
+		caseIdx := 3000000 + ci
+		r := run.Rand("chain", ci)
+		w := gen.NewWorld(uint64(r.Int63()), 6, 4)
+		var ann, plain strings.Builder
+		ann.WriteString("query Q($yes: Boolean = true, $no: Boolean = false) { node(id: 2) { id ...F0 } }\n")
+		plain.WriteString("{ node(id: 2) { id ...F0 } }\n")
+		for k := 0; k < length; k++ {
+			if k == length-1 {
+				fmt.Fprintf(&ann, "fragment F%d on Node { grp name }\n", k)
+				fmt.Fprintf(&plain, "fragment F%d on Node { grp name }\n", k)
+				break
+			}
+			dir := []string{"@include(if: true)", "@skip(if: false)", "@include(if: $yes)", "@skip(if: $no)", "@include(if: true) @skip(if: false)"}[r.Intn(5)]
+			fmt.Fprintf(&ann, "fragment F%d on Node { ...F%d %s }\n", k, k+1, dir)
+			fmt.Fprintf(&plain, "fragment F%d on Node { ...F%d }\n", k, k+1)
+		}
+		text, ptext := ann.String(), plain.String()
+		run.Case(fmt.Sprintf("chain-of-%d-kept-spreads", length), true)
+		run.Count("fragment_chain_cases", 1)
+		type target struct {
+			name string
+			exec func(text string) (interface{}, error)
+		}
+		targets := []target{{names[0], func(t string) (interface{}, error) {
+			v, err, _ := execute(schemas[0], t, map[string]interface{}{}, w)
+			return v, err
+		}}}
+		for _, g := range gateways {
+			g := g
+			targets = append(targets, target{g.name, func(t string) (interface{}, error) { return viaGateway(g.e, t, map[string]interface{}{}, w) }})
+		}
+		for _, tg := range targets {
+			want, perr := tg.exec(ptext)
+			if perr != nil {
+				run.Inconclusive(fmt.Sprintf("chain case %d: directive-free chain of %d fragments failed on %s: %v", caseIdx, length, tg.name, vlib.Trunc(perr.Error(), 200)))
+				continue
+			}
+			got, err := tg.exec(text)
+			wit := map[string]interface{}{"annotated": vlib.Trunc(text, 1500), "pruned": vlib.Trunc(ptext, 800), "chain_length": length, "config": tg.name}
+			if err != nil {
+				wit["what"] = "a chain of named fragments with kept directive-carrying spreads fails while the same chain without the directives succeeds"
+				wit["error"] = vlib.Trunc(err.Error(), 600)
+				run.Violation(caseIdx, "", wit)
+			} else if a, b := vlib.Canon(got), vlib.Canon(want); a != b {
+				wit["what"] = "a chain of named fragments with kept directive-carrying spreads gives another result than the chain without the directives"
+				wit["got"], wit["want"] = vlib.Trunc(a, 1500), vlib.Trunc(b, 1500)
+				run.Violation(caseIdx, "", wit)
+			}
 		}
 	}
 	n := run.N(6000, 200000)
